@@ -2,7 +2,7 @@ SPECIFICATION Spec
 CONSTANTS
   Mode = "mc"
   MaxNodes = 8
-  Enabled = {"Module", "Fn", "FCall", "Array", "Structural", "FieldFull", "FieldShort", "Deref", "Idx", "Mem", "Len", "Int", "BinAdd"}
+  Enabled = {"Module", "Fn", "FCall", "Array", "Structural", "FieldFull", "FieldShort", "Deref", "Idx", "Mem", "Len", "Int"}
   FlagSets <- FlagSets_none
   VarForms <- VarForms_init
   FnNames = {"f"}
@@ -36,10 +36,10 @@ CONSTANTS
   MaxElems = 3
   MaxFields = 2
   MaxSteps = 2
-  Addrs = {0, 2}
+  Addrs = {0}
   SetAddrs = {0}
   LenAddrs = {0}
-  TrailingCommas = {TRUE, FALSE}
+  TrailingCommas = {FALSE}
   LooseMembers = FALSE
 INVARIANTS TreeOK ToksAgree EmitCase
 CHECK_DEADLOCK FALSE
